@@ -1,6 +1,8 @@
 """C12 - malformed tokens are isolated, reported once and preserved (document diff vs clean twin + history log checker)."""
 from __future__ import annotations
 
+import re
+
 import random
 
 from ..common import Ctx, subseed
@@ -46,6 +48,7 @@ def malformed(rng):
                        '2r$', '2rx', '2r:', '8rL', '4rT', 'rit.', '4c 4e $', '4d ', '4c 4e ', '=1 ']), 'garbage-suffix'
 
 
+RE_ERRLINE = re.compile(r'Error token found at line (\d+) with encoding')
 _ENV_TEXTS = []
 
 
@@ -119,6 +122,37 @@ def doc_level(ctx: Ctx, cs):
     if exc is not None:
         ctx.violation('import-raises', f'import of a document with {len(repl)} malformed cells raised {type(exc).__name__}: {exc}', case)
         return
+    if cs % 4 == 1:
+        # the other reporting surfaces say the same: raise_on_errors=True raises exactly when the list is not empty and names the same
+        # lines in the same order; Importer.has_errors() / get_error_messages() of an importer used directly agree with the list
+        import kernpy as kp
+        ctx.mon('reporting_surfaces_compared')
+        want_lines = [e_.line for e_ in errs]
+        try:
+            kp.loads(x, raise_on_errors=True)
+            strict_lines = None
+        except Exception as ex:  # noqa
+            strict_lines = [int(n_) for n_ in RE_ERRLINE.findall(str(ex))]
+        if (strict_lines is None) != (not errs) or (strict_lines is not None and strict_lines != want_lines):
+            ctx.violation('reporting-surfaces-differ', f'loads(raise_on_errors=True) {"did not raise" if strict_lines is None else "names lines " + str(strict_lines[:6])}, '
+                          f'the error list names lines {want_lines[:6]}', case)
+        try:
+            imp_ = kp.Importer()
+            imp_.import_string(x)
+            msg_lines = [int(n_) for n_ in RE_ERRLINE.findall(imp_.get_error_messages())]
+            if bool(imp_.has_errors()) != bool(errs) or msg_lines != want_lines:
+                ctx.violation('reporting-surfaces-differ', f'Importer.has_errors() = {imp_.has_errors()}, get_error_messages() names lines '
+                              f'{msg_lines[:6]}; the error list names lines {want_lines[:6]}', case)
+        except Exception as ex:  # noqa
+            ctx.violation('reporting-surfaces-differ', f'Importer().import_string raised {type(ex).__name__}: {ex} but loads succeeded', case)
+        d_s, e_s, x_s = None, None, None
+        try:
+            d_s, e_s = kp.loads(x0, raise_on_errors=True)
+        except Exception as ex:  # noqa
+            x_s = ex
+        if x_s is not None or e_s or kpx.snapshot(d_s) != kpx.snapshot(d0):
+            ctx.violation('reporting-surfaces-differ', f'the undamaged text with raise_on_errors=True '
+                          f'{"raised " + type(x_s).__name__ if x_s is not None else "gives another document"}', case)
     if cs % 3 == 0:
         # the same damaged text read from a file must give the same errors and tokens
         import os
